@@ -171,6 +171,22 @@ _request = st.fixed_dictionaries(
 wellframed_cases = st.fixed_dictionaries(
     {"t": st.sampled_from(["pipe", "unix", "shm"]), "req": _request, "nonce": st.integers(0, 2**40)}
 )
+# several requests on one connection (dynamic segment attach happens on pipe/unix, not on the static shm-pipe)
+# an otherwise valid request whose only perturbation is in the shared-memory keys (reaches code behind validation)
+_shm_focus_request = st.builds(
+    lambda m, name, size, off, ln: {"m": m, "md": {**_MD_DEFAULT, "shm_name": name, "shm_size": size, "shm_off": off, "shm_len": ln},
+                                     "other": [], "extra": [], "cols": {"kind": "params"}, "rows": 1},
+    st.sampled_from(["probe", "unary", "enumy"]),
+    st.sampled_from(["real", "real", "real", "nonexistent", "foreign", "absent"]),
+    st.sampled_from(["absent", "ok", "nonnumeric", "negative", "huge", "zero", "nonutf8"]),
+    st.sampled_from(["absent", "absent", "absent", "0", "hdr", "nonnumeric", "negative", "huge", "nonutf8"]),
+    st.sampled_from(["absent", "absent", "0", "64", "nonnumeric", "negative", "huge"]),
+)
+sequence_cases = st.fixed_dictionaries(
+    {"t": st.sampled_from(["pipe", "unix"]),
+     "reqs": st.lists(st.sampled_from([0, 0, 1]).flatmap(lambda i: [_shm_focus_request, _request][i]), min_size=1, max_size=3),
+     "readvertise": st.booleans(), "nonce": st.integers(0, 2**40)}
+)
 _mutation = st.one_of(
     st.builds(lambda f: {"op": "truncate", "at": f}, st.floats(0, 1, exclude_max=True)),
     st.builds(lambda f, b: {"op": "flip", "at": f, "xor": b}, st.floats(0, 1, exclude_max=True), st.integers(1, 255)),
@@ -583,6 +599,41 @@ def run_wellframed(case: dict[str, Any]) -> Outcome:
     return out
 
 
+def run_sequence(case: dict[str, Any]) -> Outcome:
+    """Several well-framed requests on ONE connection: a valid request first attaches a real client-owned segment
+    (so the connection's segment cache is warm), then generated requests re-advertise it with perturbed metadata.
+    Every request must be answered and a probe must still work after each."""
+    out = Outcome()
+    segs = _Segments()
+    live = _Live(case["t"])
+    warm = {"m": "probe", "md": {**_MD_DEFAULT, "shm_name": "real", "shm_size": "ok"}, "other": [], "extra": [],
+            "cols": {"kind": "params"}, "rows": 1}
+    try:
+        out.label(f"t={case['t']}", f"len={len(case['reqs'])}")
+        for k, req in enumerate([warm, *case["reqs"]]):
+            if k > 0 and req["md"]["shm_name"] == "absent" and case["readvertise"]:
+                req = {**req, "md": {**req["md"], "shm_name": "real"}}  # same segment, generated size/offset/length
+            data = _request_bytes(req, segs)
+            if _classify(data) != "valid1":
+                raise AssertionError("generator produced a request pyarrow does not call a complete single-batch stream")
+            pert = _perturbations(req)
+            if k > 0 and pert:
+                out.nontrivial = True
+            for p_ in pert if k > 0 else []:
+                out.label(f"perturbed={p_}")
+            before = len(out.violations)
+            _judge_wellframed(live, data, req["m"] in _HEADER_STREAMS, case["nonce"] + k, out,
+                              f"request #{k} {req!r} after a request that attached a real segment, on {case['t']}",
+                              "after_segment_attach")
+            if len(out.violations) > before:
+                out.violations[before:] = [(f"sequence/{key}", what) for key, what in out.violations[before:]]
+                break
+    finally:
+        live.close()
+        segs.close()
+    return out
+
+
 def run_bytes(case: dict[str, Any]) -> Outcome:
     out = Outcome()
     segs = _Segments()
@@ -624,3 +675,4 @@ def run_bytes(case: dict[str, Any]) -> Outcome:
 def main(chk: Check) -> None:
     chk.explore("wellframed", wellframed_cases, run_wellframed, quick=2000, thorough=40000)
     chk.explore("bytes", bytes_cases, run_bytes, quick=400, thorough=8000)
+    chk.explore("sequence", sequence_cases, run_sequence, quick=300, thorough=6000)
